@@ -35,6 +35,10 @@ type lifetime struct {
 	start *StartError
 	writeErrs []string
 	taint     map[string]string // bucket -> why its live (uncrashed) content already disagrees with the model
+	wantFinal   bool
+	finalRows   map[string][]OutRow
+	finalErr    map[string]error
+	finalLogLen int
 }
 
 // timeAt returns the virtual time of crash point k.
@@ -58,7 +62,7 @@ func applyKnobs(k map[string]int) {
 // started on fs; the client is a single task so that "acknowledged" is
 // unambiguous.
 func runLifetime(fs *simos.FS, w *Workload, from int, startNanos int64, model *Model, taint map[string]string) *lifetime {
-	lt := &lifetime{base: fs.Clone(), from: from, marks: make([]opMark, len(w.Ops)), taint: taint}
+	lt := &lifetime{base: fs.Clone(), from: from, marks: make([]opMark, len(w.Ops)), taint: taint, wantFinal: lifetimeWantFinal}
 	live := model.Clone()
 	for i := range lt.marks {
 		lt.marks[i] = opMark{-1, -1, false}
@@ -156,6 +160,21 @@ func runLifetime(fs *simos.FS, w *Workload, from int, startNanos int64, model *M
 					} else if mm := CompareAll(mb, rows[key]); mm != nil {
 						lt.taint[key] = "after graceful restart: " + mm.Error()
 					}
+				}
+			}
+		}
+		if lt.wantFinal {
+			// what the live (uncrashed) server returns at the end of the lifetime;
+			// queries do not mutate the disk, so the log is unaffected
+			lt.finalRows = map[string][]OutRow{}
+			lt.finalErr = map[string]error{}
+			lt.finalLogLen = len(fs.Log)
+			for key := range live.B {
+				rows, qe := n.Query(&QuerySpec{Dest: key})
+				if qe != nil {
+					lt.finalErr[key] = qe
+				} else {
+					lt.finalRows[key] = rows[key]
 				}
 			}
 		}
